@@ -159,6 +159,40 @@ class A(Adapter):
             return "board_full"
         return None
 
+    # ---- reach probes ------------------------------------------------------------------------------
+    def events(self, ps, action, s, ts, env, cfg):
+        bs = np.asarray(s.body_state)
+        R, C = bs.shape
+        if ps is None:
+            r, c = self._head(s)
+            fr, fc = int(s.fruit_position.row), int(s.fruit_position.col)
+            return ((["reset_nonsquare"] if R != C else []) + (["reset_fruit_adjacent_to_head"] if abs(r - fr) + abs(c - fc) == 1 else [])
+                    + (["reset_head_in_corner"] if r in (0, R - 1) and c in (0, C - 1) else []))
+        pbs = np.asarray(ps.body_state)
+        a = int(action)
+        r, c = self._head(ps)
+        nr, nc = r + DELTA[a][0], c + DELTA[a][1]
+        if not (0 <= nr < R and 0 <= nc < C):
+            return ["end_invalid_move_off_board"]
+        if pbs[nr, nc] > 1:
+            return ["end_invalid_move_into_body"]
+        ev = []
+        if pbs[nr, nc] == 1:
+            ev.append("move_onto_vacating_tail_cell")
+            if int(ps.length) == 2:
+                ev.append("reverse_onto_tail_length_2")
+        if (nr, nc) == (int(ps.fruit_position.row), int(ps.fruit_position.col)):
+            ev.append("fruit_eaten")
+        if bool((bs > 0).all()):
+            ev.append("end_board_full")
+        elif not self.legal(s, env).any():
+            ev.append("surrounded_no_legal_move")
+        elif int(self.legal(s, env).sum()) == 1:
+            ev.append("single_legal_move_left")
+        if 2 * int(s.length) >= R * C:
+            ev.append("length_at_least_half_board")
+        return ev
+
     # ---- C12 -------------------------------------------------------------------------------------
     def observe(self, s, obs, env, cfg):
         bs = np.asarray(s.body_state)
